@@ -121,7 +121,7 @@ def level(ctx, case, jcase, v, schema, doc, errs, prefix, cfg, depth):
                     ctx.fail('C09 oracle: %s error carries counts %r, standalone validation gives (%d, %d)' %
                              (op, e.info[1:3], n, total), where)
                 de = e.definitions_errors
-                keys = sorted(k for k in de if de[k])
+                keys = sorted((k for k in de if de[k]), key=lambda k: (not isinstance(k, int), repr(k)))
                 if keys != failing:
                     ctx.fail('C09 oracle: %s error lists failing definitions %r, standalone validation gives %r' %
                              (op, keys, failing), where)
